@@ -785,6 +785,8 @@ fn main() {
     }
     let mut results = std::mem::take(&mut *results.lock().unwrap());
     results.sort_by_key(|d| d.idx);
+    let (mut panics_shown, mut triple_samples) = (0, 0);
+    let mut extra_samples: Vec<serde_json::Value> = Vec::new();
     for d in results {
         out.impl_checks += 3; // process A vs process B, process A vs in-process run 1, vs in-process run 2
         out.count(&format!("harness:{}", d.h));
@@ -793,9 +795,17 @@ fn main() {
             continue;
         }
         if d.a.contains("\nPANIC ") {
-            out.count("worker-panicked(same in all runs unless reported)");
+            // the harness itself panicked (the same way in every run, or a difference is reported below)
+            out.count(&format!("harness-panicked:{}:{}", d.h, d.p));
+            if panics_shown < 2 {
+                panics_shown += 1;
+                extra_samples.push(json!({"harness_panicked": d.h, "preset": d.p, "hseed": d.s, "message": d.a.lines().last().unwrap_or("").chars().take(300).collect::<String>()}));
+            }
         }
-        out.sample(json!({"harness": d.h, "preset": d.p, "hseed": d.s, "output_lines": d.a.lines().count(), "last_line": d.a.lines().last().unwrap_or("").chars().take(300).collect::<String>()}));
+        if triple_samples < 2 {
+            triple_samples += 1;
+            extra_samples.push(json!({"harness": d.h, "preset": d.p, "hseed": d.s, "output_lines": d.a.lines().count(), "last_line": d.a.lines().last().unwrap_or("").chars().take(300).collect::<String>()}));
+        }
         if args.only.is_some() {
             println!("triple case {}: harness={} preset={} seed={}\n---- process A ({} lines) ----\n{}", d.idx, d.h, d.p, d.s, d.a.lines().count(), d.a.lines().rev().take(12).collect::<Vec<_>>().into_iter().rev().collect::<Vec<_>>().join("\n"));
             println!("replay by hand: {} --role worker --harness {} --preset {} --hseed {}", std::env::current_exe().unwrap().display(), d.h, d.p, d.s);
@@ -834,5 +844,9 @@ fn main() {
             println!("identical in 2 child processes and in 2 consecutive in-process runs");
         }
     }
+    // Out keeps three samples: one kernel case, then triples
+    out.samples.truncate(1);
+    out.samples.extend(extra_samples.into_iter().take(3));
+    out.samples.truncate(4);
     out.finish(args.seed);
 }
